@@ -68,8 +68,9 @@ def main():
     for pid, (imports, title, items) in TABLE.items():
         if only and pid not in only: continue
         src = 'From LLTD Require Import %s.\nSet Printing Width 110.\n' % imports + ''.join('Check %s.\n' % l for _, l in items)
-        open('/tmp/genprops.v', 'w').write(src)
-        p = subprocess.run(['coqc'] + FL + ['/tmp/genprops.v'], stdout=subprocess.PIPE, stderr=subprocess.STDOUT, text=True, cwd='/tmp')
+        wd = os.path.join(VERIF, '_build', 'genprops'); os.makedirs(wd, exist_ok=True)
+        open(os.path.join(wd, 'genprops.v'), 'w').write(src)
+        p = subprocess.run(['coqc'] + FL + [os.path.join(wd, 'genprops.v')], stdout=subprocess.PIPE, stderr=subprocess.STDOUT, text=True, cwd=wd)
         if p.returncode != 0:
             print(pid, 'FAILED:\n', p.stdout[-1500:]); continue
         out = p.stdout
